@@ -643,6 +643,25 @@ func runMsg(c *Case) lib.Result {
 	if why := fieldSpec(c.Msgs, obs[apiConcatMessages]); why != "" {
 		fail("msg-field-spec", "ConcatMessages: %s", why)
 	}
+	if c.Conc > 0 {
+		res.Tags = append(res.Tags, "feat:concurrent")
+		if res.Oracle == "" {
+			api := c.API
+			if api == apiChain {
+				api = apiStreamReader
+			}
+			own := func() string {
+				o := callMsgAPI(api, buildMsgs(c.Msgs))
+				if o.Class == "panic" {
+					return "panic " + o.Msg
+				}
+				return renderObs(o.Class, normMsg(o.Val))
+			}
+			if why := concurrentPhase(c, own); why != "" {
+				fail("concurrent-nondet", "%s: %s", apiNames[api], why)
+			}
+		}
+	}
 	return res
 }
 
